@@ -56,7 +56,7 @@ def ops(tier):
         for i in INPUTS:
             if c == "decoy" and i not in ("valid2", "syntax"):
                 continue
-            if i in ("procfail", "matchfail") and c not in ("proc", "grepo"):
+            if i in ("procfail", "matchfail") and c not in ("proc", "grepo", "user"):
                 continue
             out.append(("load", c, i))
         if c == "grepo":
@@ -85,15 +85,21 @@ class Pool:
             g = DECOY
         if c == "user":
             class Leaf:
+                """user class with its own attribute protocol: names are normalised to upper case on every assignment"""
+
                 def __init__(self, **k):
-                    self.__dict__.update(k)
+                    for a, v in k.items():
+                        setattr(self, a, v)
+
+                def __setattr__(self, a, v):
+                    object.__setattr__(self, a, v.upper() if a == "name" and isinstance(v, str) else v)
             kw["classes"] = [Leaf]
         if c == "grepo":
             kw["global_repository"] = True
         mm = metamodel_from_str(g, **kw)
-        if c in ("proc", "grepo"):
+        if c in ("proc", "grepo", "user"):
             def p(obj):
-                if obj.name == "boom":
+                if obj.name in ("boom", "BOOM"):
                     raise ValueError("boom")
             def val(x):
                 if x == "999":
